@@ -52,6 +52,7 @@ import (
 	"os"
 	"runtime"
 	"slices"
+	"strings"
 	_ "unsafe"
 
 	"golang.org/x/tools/go/ssa"
@@ -129,6 +130,13 @@ func (fr *frame) get(key ssa.Value) value {
 			return r
 		}
 		cell := zero(mustDeref(key.Type()))
+		// gosym: packages whose initialiser is not run (net/http, ...) still have their sentinel errors:
+		// an Err* variable of type error is a distinct non-nil error, as after errors.New
+		if key.Pkg != nil && skipInit(key.Pkg.Pkg.Path()) && (strings.HasPrefix(key.Name(), "Err") || strings.HasPrefix(key.Name(), "err")) {
+			if nt, ok := mustDeref(key.Type()).(*types.Named); ok && nt.Obj().Pkg() == nil && nt.Obj().Name() == "error" {
+				cell = mkError(fr, key.Pkg.Pkg.Path()+"."+key.Name())
+			}
+		}
 		fr.i.globals[key] = &cell
 		return &cell
 	}
@@ -248,6 +256,16 @@ func visitInstr(fr *frame, instr ssa.Instruction) continuation {
 		fr.runDefers()
 
 	case *ssa.Panic:
+		if v, ok := fr.get(instr.X).(iface); ok {
+			if sv, ok := v.v.(string); ok && sv == "gosym:stripped" {
+				// a function whose body the front end dropped: name it and its callers
+				st := ""
+				for f, n := fr, 0; f != nil && n < 6; f, n = f.caller, n+1 {
+					st += " <- " + f.fn.String()
+				}
+				panic(engineAbort{"unsupported", "call into a function whose body is not loaded (stripped package)" + st})
+			}
+		}
 		panic(targetPanic{fr.get(instr.X)})
 
 	case *ssa.Send:
@@ -634,6 +652,9 @@ func runBodyEnv(i *interpreter, caller *frame, fn *ssa.Function, args []value, e
 // After a recovered panic in a function with NRPs, fr.result is
 // undefined and fr.block contains the block at which to resume
 // control.
+// panicOrigin: target call stack of the most recent target-level panic (debugging aid, reported with GOSYM_STACK)
+var panicOrigin string
+
 func runFrame(fr *frame) {
 	defer func() {
 		if fr.block == nil {
@@ -647,6 +668,12 @@ func runFrame(fr *frame) {
 		switch ep := fr.panic.(type) {
 		case engineAbort, crashSignal, schedAbort:
 			panic(ep) // engine control flow: never visible to the target program
+		case runtime.Error, targetPanic:
+			if panicOrigin == "" { // innermost frame sees the panic first: remember where it came from
+				for f, n := fr, 0; f != nil && n < 8; f, n = f.caller, n+1 {
+					panicOrigin += " <- " + f.fn.String()
+				}
+			}
 		case *runtime.TypeAssertionError:
 			panic(engineAbort{"unsupported", "engine type assertion: " + ep.Error() + " in " + fr.fn.String()})
 		case string:
@@ -756,4 +783,3 @@ func doRecover(caller *frame) value {
 	}
 	return iface{}
 }
-
